@@ -28,7 +28,7 @@ RULE = ("Values from (i) the EXHAUSTIVE small domain: all JSON values with <=2 c
         "value contains a container, or a boundary scalar, or overwrites an existing position; "
         "distinct by canonical JSON of (class, entry, target, prior, value).")
 ASSUMPTIONS = [
-    "NaN/inf and lone surrogates are outside the domain (not JSON / not encodable as UTF-8)",
+    "NaN/inf are outside the domain (not JSON); lone surrogates are included (JSON-escapable) except for MongoDB (BSON is UTF-8)",
     "MongoDB: ints within 64 bits and keys without NUL (BSON limits documented by the repo)",
     "attribute-access families: keys without dots",
     "Zarr fake mirrors numcodecs.JSON (sort_keys=True)",
@@ -38,7 +38,7 @@ LEAVES = [None, False, True, 0, 1, 1.0, "", "a"]
 BOUNDARY = [2**63, -(2**63) - 1, 2**64 + 1, -(2**80), 10**40, 2**1024, -(2**1024) - 1, 10**400, -(10**1000),
             -0.0, 5e-324, 1e308, 1.7976931348623157e308,
             0.1, 1e-7, 123456789.125, "\u0000", "\U0001F600", "\\", '"', " ", "a.b", " ", "\n\t",
-            "é", "null", "true", "1", "1.0", 1.0, 1, True, 0, False, 0.0, None, "", [], {}, [[]], [{}],
+            "é", "\ud800", "a\udfffb", "null", "true", "1", "1.0", 1.0, 1, True, 0, False, 0.0, None, "", [], {}, [[]], [{}],
             {"": {}}, {"": ""}, {"a": [None]}]
 
 DICT_ENTRIES = ["ctor", "setitem", "setdefault", "update_map", "update_pairs", "update_kw",
@@ -249,13 +249,15 @@ def _ok_for(ci, v):
         return all(_ok_for(ci, x) for x in v)
     if ci.backend == "mongo" and isinstance(v, int) and not isinstance(v, bool):
         return -(2**63) <= v < 2**63
+    if ci.backend == "mongo" and isinstance(v, str):
+        return not any(0xD800 <= ord(c) <= 0xDFFF for c in v)
     return True
 
 
 def _nt(case):
     prior, val = case[4], case[5]
     return (prior is not ABSENT) or kind_of(val) in ("dict", "list") or any(
-        type(val) is type(b) and val == b for b in BOUNDARY[:35])
+        type(val) is type(b) and val == b for b in BOUNDARY[:37])
 
 
 def _fails(case):
